@@ -16,6 +16,9 @@ pub fn handle(line: &str) -> String {
     let Some(def) = parser::parse_definition(src) else {
         return json!({"error": "parse"}).to_string();
     };
+    // pass budgets (hook H2): the number of passes each propagation loop may perform
+    program_structure::cfg::verif::VALUE_PASSES.with(|b| b.set(req["value_passes"].as_u64().map(|x| x as usize)));
+    program_structure::cfg::verif::DEGREE_PASSES.with(|b| b.set(req["degree_passes"].as_u64().map(|x| x as usize)));
     let lib = FileLibrary::new();
     let mut out = json!({"ast": crate::dump::ast_def(&def)});
     let mut reports = ReportCollection::new();
